@@ -132,6 +132,16 @@ class Program:
         return res
 
 
+GLOBAL_NAME_STYLES = ["g%d", "g%d", "gBuf%d", "G%d", "baseColor%d", "Tex%dData", "g_%d_x", "gr\u00fcn%d", "_g%d", "LIGHTS%d", "tex2D%d"]
+PC_NAMES = ["pc", "pc", "pushConsts", "PC", "push_data", "_pc"]
+
+
+def gname(rng, i):
+    """names of module-scope variables in varied styles (camelCase, PascalCase, upper case, digits, underscores,
+    non-ASCII): the generator must treat a name as an opaque key"""
+    return rng.choice(GLOBAL_NAME_STYLES) % i
+
+
 def random_program(rng, n_globals=None, n_helpers=None, depth_bias=False, stages=None, pc=False):
     p = Program()
     kinds = list(RES)
@@ -142,9 +152,9 @@ def random_program(rng, n_globals=None, n_helpers=None, depth_bias=False, stages
         grp = rng.randrange(ngroups) if i >= ngroups else i
         b = nextb.get(grp, 0) + rng.choice([0, 0, 1, 3])
         nextb[grp] = b + 1
-        p.globals.append(("g%d" % i, rng.choice(kinds), grp, b))
+        p.globals.append((gname(rng, i), rng.choice(kinds), grp, b))
     if pc:
-        p.push_constant = ("pc", rng.choice(["f32", "vec4<f32>", "mat4x4<f32>", "US"]))
+        p.push_constant = (rng.choice(PC_NAMES), rng.choice(["f32", "vec4<f32>", "mat4x4<f32>", "US", "vec3<f32>", "vec3<u32>", "vec2<i32>", "array<vec3<f32>, 2>", "mat3x3<f32>"]))
     nh = n_helpers if n_helpers is not None else rng.randint(0, 6)
 
     def items(maxcall, n):
@@ -174,9 +184,9 @@ def diamond_program(rng, target="global"):
     """entry 1 (stage A) calls helpers a then b, both call c, which touches the target; entry 2 (stage B) reaches the
     target only through b (or only through a). Exposes stale caches shared between entry points."""
     p = Program()
-    p.globals = [("g0", rng.choice(list(RES)), 0, 0), ("g1", "uniform", 0, 1)]
+    p.globals = [(gname(rng, 0), rng.choice(list(RES)), 0, 0), (gname(rng, 1), "uniform", 0, 1)]
     if target == "pc":
-        p.push_constant = ("pc", rng.choice(["f32", "vec4<f32>", "US"]))
+        p.push_constant = (rng.choice(PC_NAMES), rng.choice(["f32", "vec4<f32>", "US", "vec3<f32>", "vec3<i32>"]))
     tgt = "pc" if target == "pc" else 0
     forms = CALL_FORMS
     # h0 = c (touches), h1 = a, h2 = b
